@@ -33,6 +33,11 @@
 #include "ref_malloc.h"
 #include "ref_math.h"
 #include "ref_mpi.h"
+#ifdef NASA_REFINE_VERIF
+#include "ref_verif.h"
+REF_VERIF_SYNC_FCN ref_verif_sync_fcn = NULL;
+REF_VERIF_OP_FCN ref_verif_op_fcn = NULL;
+#endif
 
 #ifdef HAVE_MPI
 
